@@ -574,18 +574,28 @@ Definition run_writer_case (toks : list (list byte)) : list byte :=
   end.
 
 (** One policy case: "pol <std|du.A|dul.A.B> <c1,c2,...>": the answers of the built-in
-    policies as generated from src/policy.rs (Gen/PolicyGen.v), 'n' = refused *)
+    policies as generated from src/policy.rs (Gen/PolicyGen.v), 'n' = refused.
+    Sizes are parsed and printed as binary integers (they reach 2^25). *)
+Definition undecZ (l : list byte) : Z :=
+  fold_left (fun acc c => (acc * 10 + Z.of_nat (c - 48))%Z) l 0%Z.
+Fixpoint decZ_aux (fuel : nat) (z : Z) (acc : list byte) : list byte :=
+  match fuel with
+  | 0 => acc
+  | S f => let acc' := (48 + Z.to_nat (z mod 10)%Z) :: acc in
+           if (z / 10 =? 0)%Z then acc' else decZ_aux f (z / 10)%Z acc'
+  end.
+Definition decZ (z : Z) : list byte := decZ_aux 40 z [].
 Definition p_optz (x : option Z) : list byte :=
-  match x with Some z => dec (Z.to_nat z) | None => [110] end.
+  match x with Some z => decZ z | None => [110] end.
 Definition run_policy_case (toks : list (list byte)) : list byte :=
   match toks with
   | _ :: pt :: ct :: _ =>
-      let cs := map undec (list_or_empty ct) in
-      let f (c : nat) : option Z :=
-        match parse_pol pt with
-        | PStd => std_grow_to (Z.of_nat c)
-        | PDu a => double_until_grow_to (Z.of_nat a) (Z.of_nat c)
-        | PDul a b => double_until_limited_grow_to (Z.of_nat a) (Z.of_nat b) (Z.of_nat c)
+      let cs := map undecZ (list_or_empty ct) in
+      let f (c : Z) : option Z :=
+        match split_on 46 pt with
+        | [115; 116; 100] :: _ => std_grow_to c
+        | [100; 117] :: a :: _ => double_until_grow_to (undecZ a) c
+        | [100; 117; 108] :: a :: b :: _ => double_until_limited_grow_to (undecZ a) (undecZ b) c
         | _ => None
         end in
       [112; 111; 108; 32] ++ join [44] (map (fun c => p_optz (f c)) cs) ++ NL
